@@ -462,6 +462,13 @@ def c18_cases():
                     head = lit + (', cb' if with_cb is True else '')
                     srcs = [enum([], f'#[{kind}({head}, {", ".join(NAMED[n] for n in perm)})]') for perm in perms]
                     cases.append((f'{kind}-{"cb" if with_cb is True else ("ncb" if with_cb else "nocb")}-{"+".join(subset)}', srcs))
+    # positional callback given as a path (an unnamed nested item that starts with an identifier followed by `::`)
+    for kind, lit in (('regex', '"[a-c]+x"'), ('token', '"ab"')):
+        for subset in [('priority', 'ignore'), ('priority',), ('ignore',)]:
+            perms = list(itertools.permutations(subset))
+            cases.append((f'{kind}-pathcb-{"+".join(subset)}',
+                          [enum([], f'#[{kind}({lit}, cbs::cb, {", ".join(NAMED[n] for n in perm)})]') for perm in perms] +
+                          [enum([], f'#[{kind}({lit}, {", ".join(NAMED[n] for n in perm)}, callback = cbs::cb)]') for perm in perms]))
     # values containing bare comparison / shift operators (must not swallow the following arguments)
     for kind, lit in (('regex', '"[a-c]+x"'), ('token', '"ab"')):
         for cbn in ('callback_lt', 'callback_shift'):
@@ -500,7 +507,7 @@ def c18_cases():
     cases.append(('logos-items-generic', [
         f'#[logos({", ".join(p)})]\nenum Tok<\'a, T> {{ #[regex("[a-z]+", |lex| lex.slice())] W(T), #[token("zz")] Z(&\'a str) }}'
         for p in itertools.permutations(gitems)]))
-    items2 = ['skip(" +", priority = 3)', 'utf8 = false', 'extras = u8']
+    items2 = ['skip(" +", priority = 3)', 'utf8 = false', 'extras = u8', 'crate = logos']
     cases.append(('logos-items-group-first', [f'#[logos({", ".join(p)})]\nenum Tok {{ #[token("zz")] Z }}'
                                               for p in itertools.permutations(items2)]))
     return cases
